@@ -63,7 +63,7 @@ func New[A p2p.Addr, Pub any](x p2p.SecureSwarm[A, Pub], mtu int, opts ...Option
 func (s *Swarm[A, Pub]) Ask(ctx context.Context, resp []byte, dst A, req p2p.IOVec) (int, error) {
 	ctx, cf := context.WithTimeout(ctx, maxAskWait)
 	defer cf()
-	if p2p.VecSize(req) > s.mtu {
+	if p2p.VecSize(req) > s.MTU() {
 		return 0, p2p.ErrMTUExceeded
 	}
 	// create ask in map
@@ -101,7 +101,7 @@ func (s *Swarm[A, Pub]) Ask(ctx context.Context, resp []byte, dst A, req p2p.IOV
 }
 
 func (s *Swarm[A, Pub]) Tell(ctx context.Context, dst A, msg p2p.IOVec) error {
-	if p2p.VecSize(msg) > s.mtu {
+	if p2p.VecSize(msg) > s.MTU() {
 		return p2p.ErrMTUExceeded
 	}
 	return s.send(ctx, dst, sendParams{
@@ -141,7 +141,14 @@ func (s *Swarm[A, Pub]) LookupPublicKey(ctx context.Context, x A) (Pub, error) {
 	return s.inner.LookupPublicKey(ctx, x)
 }
 
+// maxParts is the largest part count the 16 bit part index and part count fields can express.
+const maxParts = 1<<16 - 1
+
 func (s *Swarm[A, Pub]) MTU() int {
+	// a message can be split into at most maxParts parts
+	if limit := (s.inner.MTU() - HeaderSize) * maxParts; limit < s.mtu {
+		return limit
+	}
 	return s.mtu
 }
 
@@ -265,9 +272,15 @@ func (s *Swarm[A, Pub]) send(ctx context.Context, dst A, params sendParams) erro
 	mtu := s.inner.MTU()
 	partSize := (mtu - HeaderSize)
 	totalSize := p2p.VecSize(params.m)
-	partCount := totalSize / partSize
-	if partSize*partCount < totalSize {
-		partCount++
+	partCount := 0
+	if totalSize > 0 {
+		if partSize < 1 || totalSize > partSize*maxParts {
+			return p2p.ErrMTUExceeded
+		}
+		partCount = totalSize / partSize
+		if partSize*partCount < totalSize {
+			partCount++
+		}
 	}
 	hdr.SetPartIndex(uint16(0))
 	hdr.SetPartCount(uint16(partCount))
